@@ -676,6 +676,8 @@ func (env *TEnv) trCall(x *ECall) (TV, error) {
 		n := *env
 		n.cur = env.loopEntry
 		return n.tr(x.Args[0])
+	case "dyncalls": // dyncalls(): ghost count of calls made through function values so far
+		return TV{env.cur.Get(vc.dynKey()), tInt}, nil
 	case "atentry": // atentry(expr): expr with variables AND heap as they were when the loop was entered
 		if env.loopEntry == nil || env.lookupEntry == nil {
 			return TV{}, fmt.Errorf("atentry() outside a loop clause")
